@@ -26,6 +26,7 @@ From CL Require Import Base.Sx Base.Res Base.Str Model.AddRemove Model.Compare
   Model.Entry Model.Parse Model.ParseFormats Model.Unescape Model.CompareText
   Proofs.C02Props Proofs.C02Roundtrip Proofs.C02BlocksRx Proofs.C02BlocksVal Proofs.C02Blocks
   Proofs.C02BlocksJunkRx Proofs.C02BlocksJunk Proofs.CompareFlat Proofs.CompareTextProofs.
+From CL Require Proofs.C02BlocksDtd Proofs.C02BlocksDtdJunk Proofs.CompareTextDtd.
 Import ListNotations.
 Local Open Scope nat_scope.
 
@@ -356,6 +357,99 @@ Proof.
     - apply (Htok _ _ _ (map TPlain (e2e_s [113; 65]))); reflexivity.
     - apply (Htok _ _ _ (map TPlain (e2e_s [118]))); reflexivity. }
   split; [split; repeat constructor; cbn; intuition discriminate|].
+  vm_compute. repeat split; reflexivity.
+Qed.
+
+(* ---- END TO END for .dtd --------------------------------------------------------------------
+   The same for DTD files: [compare_dtd html_unescape ...] parses both texts with the DTD parser
+   model, DTDEntityMixin.val = html_unescape(raw_val) (CPython's html.unescape: a parameter,
+   any function), Entry.count_words; the files are texts of legal DTD block lists
+   (Proofs/C02BlocksDtd.v: entities with attached comments, parameter entities, comments,
+   white space; the localization without or with one garbage region, C02BlocksDtdJunk.v);
+   the (key, value) lists are the records with the value passed through html_unescape
+   ([dtd_pairs]).  The Junk counter also advances at parsed entities, so the generated Junk
+   key is excluded for every counter value. *)
+Theorem C03_end_to_end_dtd :
+  forall (html_unescape : str -> str)
+         (chk : @cent pykey str -> @cent pykey str -> list finding) (merge : bool) (j0 : nat)
+         (bsR bsL : list C02BlocksDtd.block),
+  let lR := CompareTextDtd.dtd_pairs html_unescape (C02BlocksDtd.records_of bsR) in
+  let lL := CompareTextDtd.dtd_pairs html_unescape (C02BlocksDtd.records_of bsL) in
+  Forall C02BlocksDtd.legal_block bsR -> C02BlocksDtd.adjacent_ok bsR ->
+  Forall C02BlocksDtd.legal_block bsL -> C02BlocksDtd.adjacent_ok bsL ->
+  NoDup (lkeys lR) -> NoDup (lkeys lL) ->
+  exists r,
+    compare_dtd html_unescape j0 (fun _ => VError) chk merge
+                (C02BlocksDtd.file_text bsR) (C02BlocksDtd.file_text bsL) = Ok r /\
+    (a_missings r = missing_keys pykey_eqb lR lL /\
+     stats_fields (a_stats r) = flat_stats pykey_eqb str_eqb py_keyname wdf lR lL) /\
+    filter (@is_njunk pykey) (a_notes r) = [] /\
+    ((forall a b, chk a b = []) ->
+     summary (fun _ => VError) r = 0 :: 0 :: flat_stats pykey_eqb str_eqb py_keyname wdf lR lL).
+Proof.
+  intros hu chk merge j0 bsR bsL lR lL H1 H2 H3 H4 H5 H6.
+  exact (CompareTextDtd.end_to_end_dtd hu chk merge j0 bsR H1 H2 H5 bsL H3 H4 H6).
+Qed.
+
+Theorem C03_end_to_end_dtd_junk :
+  forall (html_unescape : str -> str)
+         (chk : @cent pykey str -> @cent pykey str -> list finding) (merge : bool) (j0 : nat)
+         (bsR bs1 : list C02BlocksDtd.block) (g : str) (bs2 : list C02BlocksDtd.block),
+  let lR := CompareTextDtd.dtd_pairs html_unescape (C02BlocksDtd.records_of bsR) in
+  let lL := CompareTextDtd.dtd_pairs html_unescape
+              (C02BlocksDtd.records_of bs1 ++ C02BlocksDtd.records_of bs2) in
+  let textL := C02BlocksDtd.file_text bs1 ++ g ++ C02BlocksDtd.file_text bs2 in
+  let p := length (C02BlocksDtd.file_text bs1) in
+  Forall C02BlocksDtd.legal_block bsR -> C02BlocksDtd.adjacent_ok bsR ->
+  Forall C02BlocksDtd.legal_block bs1 -> C02BlocksDtdJunk.legal_garbage g = true ->
+  Forall C02BlocksDtd.legal_block bs2 ->
+  C02BlocksDtdJunk.jadjacent_ok (C02BlocksDtdJunk.with_garbage bs1 g bs2) ->
+  NoDup (lkeys lR) -> NoDup (lkeys lL) ->
+  (forall n, ~ In (KS (junk_key n (p, p + length g))) (lkeys lR)) ->
+  (forall n, ~ In (KS (junk_key n (p, p + length g))) (lkeys lL)) ->
+  exists r,
+    compare_dtd html_unescape j0 (fun _ => VError) chk merge (C02BlocksDtd.file_text bsR) textL = Ok r /\
+    (a_missings r = missing_keys pykey_eqb lR lL /\
+     stats_fields (a_stats r) = flat_stats pykey_eqb str_eqb py_keyname wdf lR lL) /\
+    filter (@is_njunk pykey) (a_notes r) = [NJunk (Z.of_nat p)] /\
+    slice textL p (p + length g) = g /\
+    ((forall a b, chk a b = []) ->
+     summary (fun _ => VError) r = 1 :: 0 :: flat_stats pykey_eqb str_eqb py_keyname wdf lR lL).
+Proof.
+  intros hu chk merge j0 bsR bs1 g bs2 lR lL textL p H1 H2 H3 H4 H5 H6 H7 H8 H9 H10.
+  exact (CompareTextDtd.end_to_end_dtd_junk hu chk merge j0 bsR H1 H2 H7 bs1 g bs2 H3 H4 H5 H6 H8 H9 H10).
+Qed.
+
+(* reference     <!ENTITY a "one two">  <!ENTITY okey "x">  <!ENTITY b "tres<br/>vier">
+   localization  <!ENTITY a "uno">  [garbage "garb "]  <!ENTITY c "v">     (html_unescape = id)
+   the premises hold and the kernel evaluates the pipeline on the two texts *)
+Definition d2e_ent (k v : list nat) : C02BlocksDtd.block :=
+  C02BlocksDtd.BEntity None (e2e_s [32]) (e2e_s k) (e2e_s [32]) 34%N (e2e_s v) [].
+Definition d2e_nl : C02BlocksDtd.block := C02BlocksDtd.BBlank (e2e_s [10]).
+Definition d2e_ref : list C02BlocksDtd.block :=
+  [d2e_ent [97] [111; 110; 101; 32; 116; 119; 111]; d2e_nl; d2e_ent [111; 107; 101; 121] [120]; d2e_nl;
+   d2e_ent [98] [116; 114; 101; 115; 60; 98; 114; 47; 62; 118; 105; 101; 114]; d2e_nl].
+Definition d2e_l1 : list C02BlocksDtd.block := [d2e_ent [97] [117; 110; 111]; d2e_nl].
+Definition d2e_g : str := e2e_s [103; 97; 114; 98; 32].
+Definition d2e_l2 : list C02BlocksDtd.block := [d2e_ent [99] [118]; d2e_nl].
+
+Example C03_example_end_to_end_dtd :
+  let hu := fun s : str => s in
+  (Forall C02BlocksDtd.legal_block d2e_ref /\ C02BlocksDtd.adjacent_ok d2e_ref) /\
+  (Forall C02BlocksDtd.legal_block d2e_l1 /\ C02BlocksDtdJunk.legal_garbage d2e_g = true /\
+   Forall C02BlocksDtd.legal_block d2e_l2 /\
+   C02BlocksDtdJunk.jadjacent_ok (C02BlocksDtdJunk.with_garbage d2e_l1 d2e_g d2e_l2)) /\
+  length (C02BlocksDtd.file_text d2e_l1) = 18 /\
+  match compare_dtd hu 0 (fun _ => VError) (fun _ _ => []) true (C02BlocksDtd.file_text d2e_ref)
+                    (C02BlocksDtd.file_text d2e_l1 ++ d2e_g ++ C02BlocksDtd.file_text d2e_l2) with
+  | Ok r => a_missings r = [e2e_k [111; 107; 101; 121]; e2e_k [98]] /\
+            summary (fun _ => VError) r = [1; 0; 2; 3; 0; 1; 1; 2; 0; 0; 0] /\
+            filter (@is_njunk pykey) (a_notes r) = [NJunk 18%Z] /\ a_skips r = [18%Z]
+  | Raise _ => False
+  end.
+Proof.
+  split; [split; [repeat constructor|vm_compute; reflexivity]|].
+  split; [split; [repeat constructor|split; [reflexivity|split; [repeat constructor|vm_compute; reflexivity]]]|].
   vm_compute. repeat split; reflexivity.
 Qed.
 
